@@ -80,7 +80,7 @@ def gen_world(rng):
                 "many": [rng.randrange(n_leaf) for _ in range(rng.randint(0, 3))], "extra": rng.randint(0, 4), "bonus": rng.randint(0, 3)}
                for _ in range(rng.randint(3, 8))]
     tags = [{"leaf": rng.randrange(n_leaf), "w": rng.randint(0, 4)} for _ in range(rng.randint(2, 6))]
-    tops = [{"holder": rng.randrange(len(holders)), "rank": rng.randint(0, 3)} for _ in range(rng.randint(2, 6))]
+    tops = [{"holder": rng.randrange(len(holders)), "backup": rng.randrange(len(holders)), "rank": rng.randint(0, 3)} for _ in range(rng.randint(2, 7))]
     return {"leaves": leaves, "holders": holders, "tags": tags, "tops": tops, "other_all": other_all and all(h["other"] is not None for h in holders)}
 
 
@@ -88,7 +88,9 @@ SCALARS = {"Leaf": [("n", "int"), ("s", "str"), ("o", "nfloat"), ("k", "int")],
            "Holder": [("extra", "int"), ("leaf.n", "int"), ("leaf.s", "str"), ("leaf.k", "int"), ("other.n", "optpath")],
            "SubHolder": [("extra", "int"), ("bonus", "int"), ("leaf.n", "int"), ("leaf.s", "str")],
            "Tag": [("w", "int"), ("leaf.n", "int"), ("leaf.k", "int")],
-           "Top": [("rank", "int"), ("holder.extra", "int"), ("holder.leaf.n", "int"), ("holder.leaf.s", "str")]}
+           "Top": [("rank", "int"), ("holder.extra", "int"), ("holder.leaf.n", "int"), ("holder.leaf.s", "str"),
+                   ("backup.extra", "int"), ("backup.leaf.n", "int"), ("backup.leaf.k", "int"), ("backup.leaf.s", "str"),
+                   ("holder.leaf.k", "int")]}
 
 
 def gen_atom(rng, var, cls, world):
@@ -127,7 +129,7 @@ def gen(rng, tier, ctx):
     world = gen_world(rng)
     kind = rng.choices(["single", "single", "single", "join_rel", "join_scalar_diff", "join_scalar_same", "join_rel_same",
                         "membership_rel", "var_eq_rel", "reject"], [30, 20, 10, 8, 6, 4, 3, 3, 3, 6])[0]
-    cls = rng.choice(["Leaf", "Holder", "SubHolder", "Tag", "Top"])
+    cls = rng.choice(["Leaf", "Holder", "SubHolder", "Tag", "Top", "Top"])
     q = {"kind": kind, "quant": "the" if rng.random() < 0.12 else "an", "root": cls, "vars": {"x": cls}}
     if kind == "single":
         q["cond"] = gen_cond(rng, "x", cls, world, rng.randint(0, 3))
@@ -192,7 +194,7 @@ def make_objects(world, sm):
                   many=[leaves[i] for i in h["many"]], extra=h["extra"])
         holders.append(sm.SubHolder(bonus=h["bonus"], **kw) if h["sub"] else sm.Holder(**kw))
     tags = [sm.Tag(uid=next(uid), leaf=leaves[t["leaf"]], w=t["w"]) for t in world["tags"]]
-    tops = [sm.Top(uid=next(uid), holder=holders[t["holder"]], rank=t["rank"]) for t in world["tops"]]
+    tops = [sm.Top(uid=next(uid), holder=holders[t["holder"]], backup=holders[t.get("backup", t["holder"])], rank=t["rank"]) for t in world["tops"]]
     return {"leaves": leaves, "holders": holders, "tags": tags, "tops": tops}
 
 
